@@ -180,9 +180,10 @@ func (c *Case) Exec(t *eng.T) {
 		}
 		return bodies, shared, judge
 	}}
-	st := xplore.Explore(sc, c.Bound, c.MaxSched, nil)
+	st := xplore.Explore(sc, c.Bound, c.MaxSched, t.Heartbeat)
 	t.AddStates(int64(st.Schedules))
 	t.AddTransitions(int64(st.Points))
+	t.AddExtra("distinct_interleavings_executed", int64(len(st.DistinctTraces)))
 	t.AddExtra("max_points_in_one_schedule", int64(st.MaxPoints))
 	if !st.Complete {
 		t.AddExtra("scenarios_capped", 1)
